@@ -38,6 +38,8 @@ def swarm_c12(rng, tier):
             "graft": rng.choice([0, 0, 1]),
             "compile": rng.choice([0, 1, 2]),
         },
+        "ref_rate": rng.choice([0.0, 0.05, 0.15, 0.3]),
+        "variants": rng.chance(0.3),
         "threads": rng.choice([2, 2, 3]),
         "p_switch": rng.choice([0.002, 0.01, 0.03, 0.08, 0.2]),
         "mix": [("gen", rng.choice([2, 5])), ("tmpl", rng.choice([2, 4])), ("corpus", rng.choice([0, 1, 2])), ("stdlib", rng.choice([0, 0, 1]))],
@@ -53,7 +55,20 @@ def compile_op(rng, tree, tier, mix):
 
 def gen_seed_pool(w, rng, cfg, tree, tier):
     """compile -> (nested) -> from_code -> to_json_data, as ordinary recorded ops."""
-    s = w.execute(compile_op(rng, tree, tier, cfg["mix"]), rng)
+    cop = compile_op(rng, tree, tier, cfg["mix"])
+    s = w.execute(cop, rng)
+    if s is not None and cfg.get("variants"):
+        # a VARIANT of the same program: equal under CPython's code == (which ignores file name, line table and
+        # stack size) but a different object with a different strict fingerprint; both get decoded, and the
+        # variant's result is compared with a pristine library copy (P5)
+        w.execute({"op": "from_code", "in": [s.id], "ref": rng.chance(0.5)}, rng)
+        if not w.stop:
+            v = w.execute(dict(cop, filename=rng.choice(["variant_b.py", "<variant>", "zz/other.py"])), rng)
+            if v is not None:
+                w.probes["variant_equal_code_different_fingerprint"] = w.probes.get("variant_equal_code_different_fingerprint", 0) + (1 if v.value == s.value and v.snap != s.snap else 0)
+                w.execute({"op": "from_code", "in": [v.id], "ref": True}, rng)
+        if w.stop:
+            return
     if s is None:
         s = w.execute({"op": "compile", "prog": {"kind": "tmpl", "name": "fallback", "src": "def f(a, *b, c=1, **d):\n    'doc'\n    return a in {1, 2.5}\n"}}, rng)
     n = s.meta.get("n_code_objects", 1)
@@ -202,6 +217,8 @@ def gen_step(w, rng, cfg, tree, tier):
     op = pick_api(w, rng)
     if op is None:
         return compile_op(rng, tree, tier, cfg["mix"])
+    if cfg.get("ref_rate") and rng.chance(cfg["ref_rate"]) and w.slots[op["in"][0]].meta.get("w", 0) <= 3000:
+        op["ref"] = True
     return op
 
 
